@@ -446,7 +446,8 @@ func c36DecimalType(p, s int) *c36Type {
 			}
 		}
 		var tags []string
-		if len(strings.TrimLeft(strings.NewReplacer("-", "", ".", "").Replace(v), "0")) > 15 {
+		// digits of the unscaled integer (value * 10^scale), which is what the parquet writer converts
+		if len(strings.TrimLeft(strings.NewReplacer("-", "", ".", "").Replace(c36CanonDecimal(v, s)), "0")) > 15 {
 			tags = append(tags, "decimal_gt15digits")
 		}
 		return c36Val{lit: v, key: "d:" + c36CanonDecimal(v, s), tags: tags}
@@ -1694,7 +1695,7 @@ var c36FormatRestrictions = map[string][]string{
 	},
 	"parquet": {
 		"no BIT columns; while C36-parquet-null-decimal is open: DECIMAL columns are NOT NULL",
-		"DECIMAL values have at most 15 significant digits (parquet/writer.go: 'the parquet-go library uses big.Float to write ... and loses precision for long decimals')",
+		"DECIMAL values have at most 15 digits in their unscaled integer value*10^scale (parquet/writer.go: 'the parquet-go library uses big.Float to write ... and loses precision for long decimals')",
 		"while C36-parquet-dotted-column is open: column names contain no '.'",
 	},
 	"all": {
